@@ -307,7 +307,8 @@ theorem newAsg_spec (h p : Nat) (hp : 0 < p) : (newAsg h p).length = h ∧ ∀ x
     rw [List.length_flatMap, sum_layout]
     have h1 := Nat.mod_lt h hp
     have h2 := Nat.div_add_mod h p
-    rw [Nat.mul_comm] at h2
+    generalize h % p = r at h1 h2 ⊢
+    generalize p * (h / p) = q at h2 ⊢
     omega
   have hnz : ∀ x ∈ (List.range p).flatMap
       (fun i => List.replicate (h / p + (if i < h % p then 1 else 0)) (i + 1)), x ≠ 0 := by
@@ -318,8 +319,8 @@ theorem newAsg_spec (h p : Nat) (hp : 0 < p) : (newAsg h p).length = h ∧ ∀ x
   unfold newAsg
   simp only []
   rw [List.take_of_length_le (by omega), hlen]
-  simp
-  exact ⟨hlen, fun x hx => hnz x hx⟩
+  simp only [Nat.sub_self, List.replicate_zero, List.append_nil]
+  exact ⟨hlen, hnz⟩
 
 theorem newTable_total (h : Nat) (p : Int) (hp : 1 ≤ p) :
     Total (newTable h p) ∧ (newTable h p).asg.length = h ∧ (newTable h p).version = 1 := by
@@ -330,6 +331,6 @@ theorem newTable_total (h : Nat) (p : Int) (hp : 1 ≤ p) :
     simp only [this, ↓reduceIte]
     have hp' : 0 < p.toNat := by omega
     obtain ⟨a, b⟩ := newAsg_spec h p.toNat hp'
-    exact ⟨⟨b, by simp⟩, a, rfl⟩
+    exact ⟨⟨b, by simp⟩, a, by trivial⟩
 
 end WK.C20
